@@ -127,6 +127,9 @@ const R_ALL: &[(&str, Fm)] = &[
     ("example.com##+js(sl1, alpha)", Fm::Std),
     ("example.com,ads.net##+js(sl2, alpha, \"be, ta\")", Fm::Std),
     ("example.com##+js(permlet)", Fm::Std),
+    // the same gated scriptlet for the same host once more (two lists may carry it under different
+    // permissions: the host's bin then holds the text twice, with two masks)
+    ("example.com,ads.net##+js(permlet)", Fm::Std),
     ("example.com#@#+js()", Fm::Std),
     ("sub.example.com#@#+js(sl1, alpha)", Fm::Std),
     ("example.*##.entity-ad", Fm::Std),
